@@ -8,8 +8,26 @@
 
 #include "rkcommon/tasking/parallel_for.h"
 #include "rkcommon/tasking/tasking_system_init.h"
+#ifdef RKCOMMON_TASKING_INTERNAL
+#include "rkcommon/verif/hooks.h"
+#endif
 
 using namespace rkcommon::tasking;
+
+#ifdef RKCOMMON_TASKING_INTERNAL
+// hold an exiting enkiTS worker for a moment after it has announced that it stopped: anything
+// it still did with the scheduler afterwards would hit a scheduler that re-initialisation has
+// already deleted (ASan reports it)
+static void hookFcn(const char *name, const void *)
+{
+  if (!strcmp(name, "ts.worker_stopped")) {
+    double t0 = vh::now();
+    while ((vh::now() - t0) * 1e6 < 400) {
+    }
+    vh::count("worker_exit_points_held");
+  }
+}
+#endif
 
 static std::atomic<int> g_active(0), g_maxActive(0);
 static thread_local int tl_depth = 0;
@@ -66,6 +84,9 @@ static bool g_debugBackend = false;
 static void runSeq(const Seq &s, long k)
 {
   std::string ctx = describe(s, k);
+#ifdef RKCOMMON_TASKING_INTERNAL
+  rkcommon::verif::hook().store(&hookFcn);
+#endif
   int before      = numTaskingThreads();
   VH_CHECK(before == 0, "C13:numTaskingThreads:before-init", "numTaskingThreads() == " + std::to_string(before) + " before any initialisation (expected 0)", ctx);
   for (size_t i = 0; i < s.inits.size(); ++i) {
@@ -177,7 +198,7 @@ int main(int argc, char **argv)
     runSeq(seqs[k], k);
     if (k % 17 == 3)
       vh::sample(vh::J().kv("case", describe(seqs[k], k)).str(), 2);
-  }, 60000, 1, [&](long k) { return std::string("C13-seq ") + describe(seqs[k], k); });
+  }, 25000, 1, [&](long k) { return std::string("C13-seq ") + describe(seqs[k], k); });
   vh::count("sequences", (long long)seqs.size());
   return vh::finish();
 }
